@@ -295,6 +295,24 @@ func c20Workload(seed int64, fonts *c20Fonts, reps int, sharedPDF bool) []c20Cal
 				return digestBytes([]byte(sb.String()))
 			})
 		}
+		// text decorations and text converted to paths (font.go decorators, text.go RenderAsPath)
+		decos := []canvas.FontDecorator{canvas.FontUnderline, canvas.FontOverline, canvas.FontStrikethrough, canvas.FontDoubleUnderline, canvas.FontDottedUnderline, canvas.FontDashedUnderline, canvas.FontWavyUnderline, canvas.FontSineUnderline, canvas.FontSawtoothUnderline}
+		for i, deco := range decos {
+			deco := deco
+			size := 10.0 + float64(i%3)
+			add("Text.RenderAsPath", func() string {
+				face := fonts.family.Face(size, canvas.Black, canvas.FontRegular, canvas.FontNormal, deco)
+				t := canvas.NewTextBox(face, "Decorated words of text, wide enough for several dashes", 60, 0, canvas.Left, canvas.Top, 0, 0)
+				rec := &c15Recorder{w: 100, h: 100}
+				t.RenderAsPath(rec, canvas.Identity, canvas.DPMM(10))
+				var all []float64
+				for _, c := range rec.calls {
+					all = append(all, c.Data...)
+					all = append(all, c.M[0][0], c.M[0][1], c.M[0][2], c.M[1][0], c.M[1][1], c.M[1][2])
+				}
+				return digestFloats(all)
+			})
+		}
 		// font loading
 		for i := 0; i < 3; i++ {
 			add("LoadFont", func() string {
@@ -398,7 +416,18 @@ func runCall(c c20Call) (d string) {
 			d = "panic:" + fmt.Sprint(r)
 		}
 	}()
-	return c.Run()
+	d = c.Run()
+	// the package tunables are inputs of every operation: a library call that writes one (even
+	// transiently) changes what concurrent calls compute; reading them here also lets the race
+	// detector see such a write
+	if !c20TunablesDefault() {
+		d += "+tunable-changed"
+	}
+	return d
+}
+
+func c20TunablesDefault() bool {
+	return canvas.Tolerance == 0.01 && canvas.Epsilon == 1e-10 && canvas.Precision == 8 && canvas.BentleyOttmannEpsilon == 1e-8 && !canvas.FastStroke && canvas.PixelTolerance == 0.1
 }
 
 // C20Child executes one history; called through `vcheck -prop C20 -c20 <spec> -c20out <file>`.
@@ -535,7 +564,7 @@ func C20Child(spec, out string) int {
 	res.Stale = canvas.VerifStaleReads()
 	res.GlyphsBefore = int(glyphsBefore)
 	res.GlyphsAfter = int(fonts.family.Face(8, canvas.Black, canvas.FontRegular, canvas.FontNormal).Font.SFNT.NumGlyphs())
-	if canvas.Tolerance != 0.01 || canvas.Epsilon != 1e-10 || canvas.Precision != 8 || canvas.BentleyOttmannEpsilon != 1e-8 || canvas.FastStroke {
+	if !c20TunablesDefault() {
 		res.Diverged = append(res.Diverged, "package tunables changed during the run")
 	}
 	b, _ := json.Marshal(res)
